@@ -35,6 +35,8 @@ type LSpec struct {
 	Fin     string   `json:"fin"`
 	Dir     string   `json:"dir"`
 	WaitMs  int      `json:"wait_ms"`
+	PP      string   `json:"pp"` // outlinks from the real postprocessor (pptree.go); step "PA" produces them all
+	PPHops  int      `json:"pp_hops"`
 }
 
 type LRow struct {
@@ -114,10 +116,18 @@ func runLQChild(spec *LSpec) (res LResult) {
 		}
 	})
 
+	var ppOuts []ppOut
+	if spec.PP != "" {
+		var err error
+		if ppOuts, err = buildOutlinks(spec.PP, spec.PPHops, spec.Dir); err != nil {
+			panic("pp tree: " + err.Error())
+		}
+	}
+
 	reactorOut := make(chan *models.Item)
 	finishCh := make(chan *models.Item)
 	produceCh := make(chan *models.Item)
-	if err := reactor.Start(4*len(spec.Steps)+16, reactorOut); err != nil {
+	if err := reactor.Start(4*len(spec.Steps)+len(ppOuts)+16, reactorOut); err != nil {
 		panic(err)
 	}
 	if err := lq.Start(finishCh, produceCh); err != nil {
@@ -246,21 +256,38 @@ func runLQChild(spec *LSpec) (res LResult) {
 				res.TimedOut = true
 			}
 		default:
-			k, _ := strconv.Atoi(st[1:])
-			it := spec.Items[k]
-			v, _ := hex.DecodeString(it.V)
-			via, _ := hex.DecodeString(it.Via)
-			item := models.NewItem(uuid.NewString(), &models.URL{Raw: string(v), Hops: it.Hops}, string(via))
-			mu.Lock()
-			logEv(LEvent{K: "R", I: k})
-			mu.Unlock()
-			sent := make(chan struct{})
-			go func() { produceCh <- item; close(sent) }()
-			select {
-			case <-sent:
-				produced++
-			case <-time.After(time.Until(deadline)):
-				res.TimedOut = true
+			type prod struct {
+				item *models.Item
+				ev   LEvent
+			}
+			var todo []prod
+			if st == "PA" {
+				for k, o := range ppOuts {
+					todo = append(todo, prod{o.item, LEvent{K: "R", I: k, V: hx(o.text), Via: hx(o.docURL), Hops: o.docHops}})
+				}
+			} else {
+				k, _ := strconv.Atoi(st[1:])
+				it := spec.Items[k]
+				v, _ := hex.DecodeString(it.V)
+				via, _ := hex.DecodeString(it.Via)
+				todo = append(todo, prod{models.NewItem(uuid.NewString(), &models.URL{Raw: string(v), Hops: it.Hops}, string(via)), LEvent{K: "R", I: k}})
+			}
+			for _, pr := range todo {
+				if res.TimedOut {
+					break
+				}
+				item := pr.item
+				mu.Lock()
+				logEv(pr.ev)
+				mu.Unlock()
+				sent := make(chan struct{})
+				go func() { produceCh <- item; close(sent) }()
+				select {
+				case <-sent:
+					produced++
+				case <-time.After(time.Until(deadline)):
+					res.TimedOut = true
+				}
 			}
 		}
 	}
@@ -297,7 +324,7 @@ func init() {
 		Header:   "From ZenoV Require Import Lib.Harness Lib.Hex Queue.HopsPath Queue.Batcher Queue.LqDb Queue.QueueHarness.\nOpen Scope Z_scope.\n",
 		CaseType: "qcase",
 		Footer:   "\nDefinition DIFF := Eval vm_compute in qdiffs cases.\nPrint DIFF.\nDefinition MON := Eval vm_compute in qmons cases.\nPrint MON.\n",
-		Rule:     "one case = one run of the real lq source (lq.Start: consumer, producer, finisher goroutines) in its own process on a scratch lq.db: workers 1..12, 2..130 outlinks produced in 1..3 rounds (texts from a pool incl. duplicates inside a round, duplicates of rows still waiting or claimed, re-adds after the row was finished and deleted, unparsable and non-UTF-8 texts; differing via/hops on duplicates), rounds separated by waits for the timer flush / for claims and deletes, seeds finished (0..2 children) or held by a plan; observed through the lq.added / lq.claimed / lq.deleted hook points, the reactor output and the table read back at the end; distinct by input; non-trivial when some produced text was already in the table (skipped) AND some row was claimed and deleted AND a size-triggered (100) or a timer-triggered batch of >= 2 URLs was added",
+		Rule:     "one case = one run of the real lq source (lq.Start: consumer, producer, finisher goroutines) in its own process on a scratch lq.db: workers 1..12, 2..130 outlinks produced in 1..3 rounds (texts from a pool incl. duplicates inside a round, duplicates of rows still waiting or claimed, re-adds after the row was finished and deleted, unparsable and non-UTF-8 texts; differing via/hops on duplicates), rounds separated by waits for the timer flush / for claims and deletes, seeds finished (0..2 children) or held by a plan; in ~25% of the cases the outlinks are what the REAL preprocess/postprocess return for a seed tree with a scripted archiver (page behind 0..3 redirects, links in the page's HTML and/or in the JSON document of a child asset); observed through the lq.added / lq.claimed / lq.deleted hook points, the reactor output and the table read back at the end; distinct by input; non-trivial when some produced text was already in the table (skipped) AND some row was claimed and deleted AND a size-triggered (100) or a timer-triggered batch of >= 2 URLs was added",
 		Gen:      genLQFlow,
 		Exec:     execLQFlow,
 		Shrink:   shrinkLQFlow,
@@ -311,7 +338,8 @@ func lqSpecOf(in string) (string, bool) {
 	if !ok {
 		return "", false
 	}
-	spec := LSpec{Workers: atoiDef(h.kv["w"], 2), Items: h.items, Steps: h.steps, Fin: h.kv["fin"], Dir: "@DIR@", WaitMs: atoiDef(h.kv["wait"], 30000)}
+	spec := LSpec{Workers: atoiDef(h.kv["w"], 2), Items: h.items, Steps: h.steps, Fin: h.kv["fin"], Dir: "@DIR@", WaitMs: atoiDef(h.kv["wait"], 30000),
+		PP: h.kv["pp"], PPHops: atoiDef(h.kv["ph"], 0)}
 	if h.kv["wait"] == "" {
 		for _, st := range spec.Steps {
 			if st == "W" || st == "X" {
@@ -385,6 +413,19 @@ func genLQFlow(r *Rng, i int, tier string) string {
 		}
 	}
 	in := fmt.Sprintf("w=%d fin=%s items=%s steps=%s", workers, fin, strings.Join(items, ";"), strings.Join(steps, ","))
+	if r.Chance(25) {
+		// the outlinks come from the REAL postprocessor (page behind redirects, links in a child asset's
+		// document); a second round produces the same links again: all of them are already queued
+		pp := fmt.Sprintf("r%d%s", r.Intn(4), []string{"h", "j", "hj"}[r.Intn(3)])
+		steps := "PA"
+		if r.Chance(40) {
+			steps = "PA,X,PA"
+		}
+		if fin == "H" && r.Chance(50) {
+			fin = "0"
+		}
+		in = fmt.Sprintf("w=%d fin=%s items= steps=%s pp=%s ph=%d", workers, fin, steps, pp, []int{0, 1, 4}[r.Intn(3)])
+	}
 	lqPool.note(in)
 	return in
 }
@@ -402,7 +443,11 @@ func shrinkLQFlow(in string) []string {
 	for i := range h.steps {
 		c := append(append([]string{}, h.steps[:i]...), h.steps[i+1:]...)
 		if len(c) > 0 {
-			out = append(out, fmt.Sprintf("w=%s fin=%s items=%s steps=%s", h.kv["w"], h.kv["fin"], strings.Join(it, ";"), strings.Join(c, ",")))
+			cand := fmt.Sprintf("w=%s fin=%s items=%s steps=%s", h.kv["w"], h.kv["fin"], strings.Join(it, ";"), strings.Join(c, ","))
+			if h.kv["pp"] != "" {
+				cand += " pp=" + h.kv["pp"] + " ph=" + h.kv["ph"]
+			}
+			out = append(out, cand)
 		}
 		if len(out) > 12 {
 			break
@@ -454,6 +499,10 @@ func execLQFlow(in string) Result {
 	for _, e := range res.Events {
 		switch e.K {
 		case "R":
+			if h.kv["pp"] != "" {
+				pev = append(pev, fmt.Sprintf("ORecv (let o := mk_outlink %s %s %s in (o_text o, o_via o, o_hops o))", coqHexS(e.Via), coqN(e.Hops), coqHexS(e.V)))
+				continue
+			}
 			q := h.items[e.I]
 			pev = append(pev, fmt.Sprintf("ORecv (%s, %s, %s)", coqHexS(q.V), coqHexS(q.Via), coqN(q.Hops)))
 			if !utf8.ValidString(unhex(q.V)) || !utf8.ValidString(unhex(q.Via)) {
@@ -511,8 +560,8 @@ func execLQFlow(in string) Result {
 	// order the database operations as they were committed (a hook fires a moment after its
 	// commit, so two neighbouring hooks of different goroutines can be logged swapped) and find
 	// the uuid Add gave to each inserted row.  Untrusted: Queue/LqDb.v decides.
-	live := map[string]*lqEnt{}   // value -> row
-	byID := map[string]string{}   // id -> value
+	live := map[string]*lqEnt{} // value -> row
+	byID := map[string]string{} // id -> value
 	fresh := func() int {
 		n := 0
 		for _, e := range live {
@@ -671,6 +720,16 @@ func execLQFlow(in string) Result {
 	}
 	if skippedDup {
 		tags["add:dup-value"] = true
+	}
+	if sp, ok := parsePP(h.kv["pp"]); ok && h.kv["pp"] != "" {
+		if sp.redirects > 0 {
+			tags["pp:page-behind-redirect"] = true
+		} else {
+			tags["pp:page-is-seed"] = true
+		}
+		if sp.json {
+			tags["pp:links-in-child-asset-document"] = true
+		}
 	}
 	tags[fmt.Sprintf("workers:%d", workers)] = true
 	var tl []string
